@@ -486,23 +486,26 @@ func boolImplies0(v ssa.Value, truth bool, base func(v ssa.Value, truth bool) bo
 		fn := phi.Parent()
 		for k, e := range phi.Edges {
 			is, known := hit(e)
-			if !known {
-				// an input that is not a constant: v has the value only if the input has it
-				if _, isK := e.(*ssa.Const); !isK && whole && boolImplies0(e, truth, base, depth+1) {
-					continue
-				}
+			_, isK := e.(*ssa.Const)
+			if !known && (isK || !whole) {
 				return false
 			}
-			if !is {
+			if known && !is {
 				continue
 			}
+			// the input gives (a constant) or may give (a boolean that is not one) v the value: it comes
+			// in over base edges only, or it has the value itself only where base holds
 			p := phi.Block().Preds[k]
 			if via(p, phi.Block()) {
 				continue
 			}
-			if len(p.Instrs) == 0 || !onlyVia(fn, p.Instrs[len(p.Instrs)-1], via) {
-				return false
+			if len(p.Instrs) != 0 && onlyVia(fn, p.Instrs[len(p.Instrs)-1], via) {
+				continue
 			}
+			if !known && boolImplies0(e, truth, base, depth+1) {
+				continue
+			}
+			return false
 		}
 		return true
 	}
